@@ -494,72 +494,72 @@ theorem LInv.knownE' (inv : LInv strict g n F Post m ths ghs) (k : Nat) (hk : k 
 /-- the thread state after the load of an `update` loop -/
 theorem afterUpdL_row (gh : Gh) (i : Nat) (f : BitVec 64 → Upd (BitVec 64))
     (c : Except (BitVec 64) (BitVec 64) → Prog α) (o : BitVec 64) (hk : Known gh.ownS i o)
-    (hp : SafeL strict g Post gh (.upd .row i f c)) (hstrict : strict = true) :
+    (hp : SafeL strict g Post gh (.upd .row i f c)) :
     Th.SafeL strict g Post gh (Th.afterUpd .row i f o c) := by
   have h1 := hp o hk
   unfold Th.afterUpd
   cases hf : f o with
   | skip => rw [hf] at h1; exact h1
   | set v => rw [hf] at h1; exact ⟨h1, hp⟩
-  | panic s => rw [hf] at h1; rw [hstrict] at h1; cases h1
+  | panic s => rw [hf] at h1; exact h1
 
 theorem afterUpdL_huge (gh : Gh) (i : Nat) (f : Nat → Upd Nat)
     (c : Except Nat Nat → Prog α) (o : Nat) (hk : KnownE g gh i o)
-    (hp : SafeL strict g Post gh (.upd .huge i f c)) (hstrict : strict = true) :
+    (hp : SafeL strict g Post gh (.upd .huge i f c)) :
     Th.SafeL strict g Post gh (Th.afterUpd .huge i f o c) := by
   have h1 := hp o hk
   unfold Th.afterUpd
   cases hf : f o with
   | skip => rw [hf] at h1; exact h1
   | set v => rw [hf] at h1; exact ⟨h1, hp⟩
-  | panic s => rw [hf] at h1; rw [hstrict] at h1; cases h1
+  | panic s => rw [hf] at h1; exact h1
 
 theorem afterUpdL_tree (gh : Gh) (i : Nat) (f : Tree → Upd Tree)
     (c : Except Tree Tree → Prog α) (o : Tree)
-    (hp : SafeL strict g Post gh (.upd .tree i f c)) (hstrict : strict = true) :
+    (hp : SafeL strict g Post gh (.upd .tree i f c)) :
     Th.SafeL strict g Post gh (Th.afterUpd .tree i f o c) := by
   have h1 := hp o
   unfold Th.afterUpd
   cases hf : f o with
   | skip => rw [hf] at h1; exact h1
   | set v => rw [hf] at h1; exact ⟨h1, hp⟩
-  | panic s => rw [hf] at h1; rw [hstrict] at h1; cases h1
+  | panic s => rw [hf] at h1; exact h1
 
 theorem afterUpdL_slot (gh : Gh) (i : Nat) (f : Kind.slot.Val → Upd Kind.slot.Val)
     (c : Except Kind.slot.Val Kind.slot.Val → Prog α) (o : Kind.slot.Val)
-    (hp : SafeL strict g Post gh (.upd .slot i f c)) (hstrict : strict = true) :
+    (hp : SafeL strict g Post gh (.upd .slot i f c)) :
     Th.SafeL strict g Post gh (Th.afterUpd .slot i f o c) := by
   have h1 := hp o
   unfold Th.afterUpd
   cases hf : f o with
   | skip => rw [hf] at h1; exact h1
   | set v => rw [hf] at h1; exact ⟨h1, hp⟩
-  | panic s => rw [hf] at h1; rw [hstrict] at h1; cases h1
+  | panic s => rw [hf] at h1; exact h1
 
 /-- **Every atomic step of every thread preserves the invariant**; no step panics (other than
     by an index outside the buffers), and a finished thread satisfies its postcondition. -/
 theorem LInv.step (okg : GeomOk g) (hhf : Huge.isHuge g.hugeFrames = false)
-    (inv : LInv true g n F Post m ths ghs) (k : Nat) (hk : k < n) :
+    (inv : LInv strict g n F Post m ths ghs) (k : Nat) (hk : k < n) :
     match (ths k).step m with
     | .done a => Post a (ghs k)
-    | .dead s => s = oobMsg
-    | .step t' m' _ => ∃ gh', LInv true g n F Post m' (fupd ths k t') (fupd ghs k gh') := by
+    | .dead s => strict = true → s = oobMsg
+    | .step t' m' _ => ∃ gh', LInv strict g n F Post m' (fupd ths k t') (fupd ghs k gh') := by
   have hs := inv.safe k
-  have self : ∀ t', Th.SafeL true g Post (ghs k) t' → ∃ gh', LInv true g n F Post m (fupd ths k t') (fupd ghs k gh') := by
+  have self : ∀ t', Th.SafeL strict g Post (ghs k) t' → ∃ gh', LInv strict g n F Post m (fupd ths k t') (fupd ghs k gh') := by
     intro t' h; exact ⟨ghs k, by rw [fupd_self]; exact inv.set_thread k t' h⟩
-  have selfm : ∀ m' t', m'.rows = m.rows → m'.huge = m.huge → Th.SafeL true g Post (ghs k) t' →
-      ∃ gh', LInv true g n F Post m' (fupd ths k t') (fupd ghs k gh') := by
+  have selfm : ∀ m' t', m'.rows = m.rows → m'.huge = m.huge → Th.SafeL strict g Post (ghs k) t' →
+      ∃ gh', LInv strict g n F Post m' (fupd ths k t') (fupd ghs k gh') := by
     intro m' t' h1 h2 h; exact ⟨ghs k, by rw [fupd_self]; exact inv.other_mem m' h1 h2 k t' h⟩
   cases ht : ths k with
   | «at» p =>
     rw [ht] at hs
     cases p with
     | ret a => exact hs
-    | panic s => have : true = false := hs; cases this
+    | panic s => intro h; have : strict = false := hs; rw [h] at this; cases this
     | load kd i c =>
       simp only [Th.step]
       cases hv : m.get? kd i with
-      | none => rfl
+      | none => exact fun _ => rfl
       | some v =>
         simp only
         cases kd with
@@ -574,12 +574,12 @@ theorem LInv.step (okg : GeomOk g) (hhf : Huge.isHuge g.hugeFrames = false)
       | tree =>
         simp only [Th.step]
         cases hv : m.get? .tree i with
-        | none => rfl
+        | none => exact fun _ => rfl
         | some o => exact selfm _ _ rfl rfl hs
       | slot =>
         simp only [Th.step]
         cases hv : m.get? .slot i with
-        | none => rfl
+        | none => exact fun _ => rfl
         | some o => exact selfm _ _ rfl rfl hs
     | swap kd i v c =>
       cases kd with
@@ -588,19 +588,19 @@ theorem LInv.step (okg : GeomOk g) (hhf : Huge.isHuge g.hugeFrames = false)
       | tree =>
         simp only [Th.step]
         cases hv : m.get? .tree i with
-        | none => rfl
+        | none => exact fun _ => rfl
         | some o => exact selfm _ _ rfl rfl (hs o)
       | slot =>
         simp only [Th.step]
         cases hv : m.get? .slot i with
-        | none => rfl
+        | none => exact fun _ => rfl
         | some o => exact selfm _ _ rfl rfl (hs o)
     | cas kd i e nw c =>
       cases kd with
       | row =>
         simp only [Th.step]
         cases hv : m.get? .row i with
-        | none => rfl
+        | none => exact fun _ => rfl
         | some o =>
           simp only
           have hkn := inv.known k i o (by simpa using hv)
@@ -615,7 +615,7 @@ theorem LInv.step (okg : GeomOk g) (hhf : Huge.isHuge g.hugeFrames = false)
       | huge =>
         simp only [Th.step]
         cases hv : m.get? .huge i with
-        | none => rfl
+        | none => exact fun _ => rfl
         | some o =>
           simp only
           have hkn := inv.knownE' k hk i o (by simpa using hv)
@@ -630,7 +630,7 @@ theorem LInv.step (okg : GeomOk g) (hhf : Huge.isHuge g.hugeFrames = false)
       | tree =>
         simp only [Th.step]
         cases hv : m.get? .tree i with
-        | none => rfl
+        | none => exact fun _ => rfl
         | some o =>
           simp only
           by_cases he : o = e
@@ -639,7 +639,7 @@ theorem LInv.step (okg : GeomOk g) (hhf : Huge.isHuge g.hugeFrames = false)
       | slot =>
         simp only [Th.step]
         cases hv : m.get? .slot i with
-        | none => rfl
+        | none => exact fun _ => rfl
         | some o =>
           simp only
           by_cases he : o = e
@@ -648,7 +648,7 @@ theorem LInv.step (okg : GeomOk g) (hhf : Huge.isHuge g.hugeFrames = false)
     | casPart i sh w e nw c =>
       simp only [Th.step]
       cases hv : m.get? .row i with
-      | none => rfl
+      | none => exact fun _ => rfl
       | some o =>
         simp only
         have hkn := inv.known k i o (by simpa using hv)
@@ -663,27 +663,27 @@ theorem LInv.step (okg : GeomOk g) (hhf : Huge.isHuge g.hugeFrames = false)
       | row =>
         simp only [Th.step]
         cases hv : m.get? .row i with
-        | none => rfl
+        | none => exact fun _ => rfl
         | some o =>
           simp only
-          exact self _ (afterUpdL_row (ghs k) i f c o (inv.known k i o (by simpa using hv)) hs rfl)
+          exact self _ (afterUpdL_row (ghs k) i f c o (inv.known k i o (by simpa using hv)) hs)
       | huge =>
         simp only [Th.step]
         cases hv : m.get? .huge i with
-        | none => rfl
+        | none => exact fun _ => rfl
         | some o =>
           simp only
-          exact self _ (afterUpdL_huge (ghs k) i f c o (inv.knownE' k hk i o (by simpa using hv)) hs rfl)
+          exact self _ (afterUpdL_huge (ghs k) i f c o (inv.knownE' k hk i o (by simpa using hv)) hs)
       | tree =>
         simp only [Th.step]
         cases hv : m.get? .tree i with
-        | none => rfl
-        | some o => simp only; exact self _ (afterUpdL_tree (ghs k) i f c o hs rfl)
+        | none => exact fun _ => rfl
+        | some o => simp only; exact self _ (afterUpdL_tree (ghs k) i f c o hs)
       | slot =>
         simp only [Th.step]
         cases hv : m.get? .slot i with
-        | none => rfl
-        | some o => simp only; exact self _ (afterUpdL_slot (ghs k) i f c o hs rfl)
+        | none => exact fun _ => rfl
+        | some o => simp only; exact self _ (afterUpdL_slot (ghs k) i f c o hs)
   | updCas kd i f cur new c =>
     rw [ht] at hs
     cases kd with
@@ -691,7 +691,7 @@ theorem LInv.step (okg : GeomOk g) (hhf : Huge.isHuge g.hugeFrames = false)
       obtain ⟨⟨gh', tr, hsafe⟩, hupd⟩ := hs
       simp only [Th.step]
       cases hv : m.get? .row i with
-      | none => rfl
+      | none => exact fun _ => rfl
       | some o =>
         simp only
         by_cases he : o = cur
@@ -699,12 +699,12 @@ theorem LInv.step (okg : GeomOk g) (hhf : Huge.isHuge g.hugeFrames = false)
           subst he
           exact ⟨gh', inv.write_row okg k hk i o new (by simpa using hv) gh' tr _ hsafe⟩
         · simp only [he, if_false]
-          exact self _ (afterUpdL_row (ghs k) i f c o (inv.known k i o (by simpa using hv)) hupd rfl)
+          exact self _ (afterUpdL_row (ghs k) i f c o (inv.known k i o (by simpa using hv)) hupd)
     | huge =>
       obtain ⟨⟨gh', tr, hsafe⟩, hupd⟩ := hs
       simp only [Th.step]
       cases hv : m.get? .huge i with
-      | none => rfl
+      | none => exact fun _ => rfl
       | some o =>
         simp only
         by_cases he : o = cur
@@ -712,32 +712,32 @@ theorem LInv.step (okg : GeomOk g) (hhf : Huge.isHuge g.hugeFrames = false)
           subst he
           exact ⟨gh', inv.write_huge hhf k hk i o new (by simpa using hv) gh' tr _ hsafe⟩
         · simp only [he, if_false]
-          exact self _ (afterUpdL_huge (ghs k) i f c o (inv.knownE' k hk i o (by simpa using hv)) hupd rfl)
+          exact self _ (afterUpdL_huge (ghs k) i f c o (inv.knownE' k hk i o (by simpa using hv)) hupd)
     | tree =>
       obtain ⟨hsafe, hupd⟩ := hs
       simp only [Th.step]
       cases hv : m.get? .tree i with
-      | none => rfl
+      | none => exact fun _ => rfl
       | some o =>
         simp only
         by_cases he : o = cur
         · simp only [he, if_true]; subst he; exact selfm _ _ rfl rfl hsafe
-        · simp only [he, if_false]; exact self _ (afterUpdL_tree (ghs k) i f c o hupd rfl)
+        · simp only [he, if_false]; exact self _ (afterUpdL_tree (ghs k) i f c o hupd)
     | slot =>
       obtain ⟨hsafe, hupd⟩ := hs
       simp only [Th.step]
       cases hv : m.get? .slot i with
-      | none => rfl
+      | none => exact fun _ => rfl
       | some o =>
         simp only
         by_cases he : o = cur
         · simp only [he, if_true]; subst he; exact selfm _ _ rfl rfl hsafe
-        · simp only [he, if_false]; exact self _ (afterUpdL_slot (ghs k) i f c o hupd rfl)
+        · simp only [he, if_false]; exact self _ (afterUpdL_slot (ghs k) i f c o hupd)
 
 /-- **The invariant holds in every state of every interleaving** of the `n` threads. -/
 theorem LInv.run (okg : GeomOk g) (hhf : Huge.isHuge g.hugeFrames = false) (sched : List Nat) (hsched : ∀ k ∈ sched, k < n) :
-    ∀ (m : Mem) (ths : Nat → Th α) (ghs : Nat → Gh), LInv true g n F Post m ths ghs →
-      ∃ ghs', LInv true g n F Post (concRun sched (m, ths)).1 (concRun sched (m, ths)).2 ghs' := by
+    ∀ (m : Mem) (ths : Nat → Th α) (ghs : Nat → Gh), LInv strict g n F Post m ths ghs →
+      ∃ ghs', LInv strict g n F Post (concRun sched (m, ths)).1 (concRun sched (m, ths)).2 ghs' := by
   induction sched with
   | nil => exact fun m ths ghs inv => ⟨ghs, inv⟩
   | cons k rest ih =>
